@@ -43,6 +43,14 @@ CLAIMS = {
          "(documents) the C01 and C04 harnesses run both emitters on the same symbolic flat IR and assert the same operations, operationIds, tags, deprecated flags and security for both.",
          "Bounds as coded in harness/.../generator/swagen/zz_verif_c11.go, zz_verif_c01.go, zz_verif_c04.go. strconv.ParseFloat is interpreted from source (symbolic digits are enumerated). Parameters/bodies/responses and component schemas are compared only as far as C06/C07 harnesses exist.",
          "DESIGN.md 4 (C11)"),
+ "C13": ("Pipeline tail: on a hand-built symbol graph with 2 (thorough 3) controllers (symbolic sort order of names) whose routes use different imported types, two independent executions of the real getReducedControllers, "
+         "each under an arbitrary (symbolic) Go map iteration order of every map it ranges over, return the same controllers in the same (sorted) order with the same import serials.",
+         "Bounds as coded in harness/.../core/pipeline/zz_verif_c13.go. Symbolic map iteration order is an engine feature (every range over a map forks over the remaining entries). Outside: order of packages.Load results and file globbing, Handlebars rendering, encoding/json key order, the date comment; getImports/getModels orderings are not yet driven.",
+         "DESIGN.md 4 (C13)"),
+ "C19": ("Mechanism level: SyncedProvider hands the same serial to the same key and different serials to different keys over every sequence of 4 lookups with symbolic keys; MetadataCache's Start/FinishMaterializing/AddStruct protocol equals a map model over every sequence of 3 operations; "
+         "GenerateIntermediate called twice on one long-lived pipeline (hand-built graph) returns the same controllers/routes/serials/models, does not grow the graph, and equals a brand-new session.",
+         "Bounds as coded in harness/.../core/pipeline/zz_verif_c13.go (vh_C19_*). Outside (the larger half): GenerateGraph/Validate re-runs over real ASTs (visitor state, GetFileVersion) need go/packages and are not encoded.",
+         "DESIGN.md 4 (C19)"),
  "C14": ("Crash freedom, decided by reachability of a panic on every path of the bound: both schema validation converters on every validation string of one rule (vocabulary or junk) with a symbolic value of up to 2 bytes on 6 field types incl. a $ref type; "
          "in addition every other harness of this suite treats a reachable panic in the code under test as a violation (FindConflicts, symbol graph operations, annotation parsing, validators, both emitters).",
          "Bounds as coded in harness/.../generator/swagen/zz_verif_c11.go (vh_C14_*). Outside: go/packages loading, visitors, Handlebars, json5, cobra; wall-clock bounds of the real CLI; loops are bounded by the engine's instruction budget (exhaustion is reported as inconclusive, never as success).",
